@@ -153,9 +153,12 @@ def gen_perm(rng, tier):
     cases = []
     for n_acq, reps in ((4, 2), (3, 1)) if tier == 'quick' else ((5, 4), (6, 1), (4, 3)):
         for _ in range(reps):
-            base = make_case(rng, n_max=n_acq, variant='grid', traj=rng.choice(['cartesian', 'ismrmrd3']))
-            img = [a for a in base['acqs'] if a['kind'] == 'image'][:n_acq]
-            extra = [a for a in base['acqs'] if a['kind'] != 'image'][:max(0, n_acq - len(img))]
+            while True:
+                base = make_case(rng, n_max=n_acq, variant='grid', traj=rng.choice(['cartesian', 'ismrmrd3']))
+                img = [a for a in base['acqs'] if a['kind'] == 'image'][:n_acq]
+                if len(img) >= 2:
+                    break
+            extra = [a for a in base['acqs'] if a['kind'] == 'rejected'][:max(0, n_acq - len(img))]
             base['acqs'] = img + extra
             for i, a in enumerate(base['acqs']):
                 a['id'] = i + 1
